@@ -137,3 +137,17 @@ Proof.
   apply project_prefix. rewrite nth_error_map, H. reflexivity.
 Qed.
 Print Assumptions C02_concurrent_projection_is_own_run.
+
+(* ---- the SMTP session in front of the hand-off (server flags + SmtpSession
+   envelope under any validator verdicts): for EVERY command script - refused
+   MAIL / RCPT / DATA, transactions continued after a refusal, RSET, EHLO, several
+   transactions - every envelope handed to the queue holds exactly the recipients
+   the CLIENT saw accepted (250 to RCPT) since its transaction began, where
+   "what the client saw" is computed from the commands and reply codes alone
+   (view_step).  Together with the theorems above (2xx => every envelope made
+   from the handed-off one is stored) and C16 (policies conserve recipients):
+   2xx => every accepted recipient is in storage. *)
+Theorem C02_handoff_envelope_has_accepted_recipients : forall cs accepted envelope,
+  In (accepted, envelope) (handoffs (false, []) (srun s_init cs)) -> envelope = accepted.
+Proof. exact handoff_envelope_has_accepted_recipients. Qed.
+Print Assumptions C02_handoff_envelope_has_accepted_recipients.
